@@ -115,6 +115,8 @@ def parse_unit(path):
                 u.items.append(('const', w[1], w[2]))
             elif w[0] == 'dispatch':
                 u.items.append(('dispatch', w[1], w[2]))
+            elif w[0] == 'fromimpl':
+                u.items.append(('fromimpl', w[1], s.split(None, 2)[2]))
             elif w[0] == 'fn':
                 m = re.match(r'fn\s+(\S+)\s*::\s*(.+?)\s*::\s*(\w+)\s*$', s)
                 if not m:
@@ -220,11 +222,15 @@ class Edited:
         self.src, self.a, self.b = src, a, b
         self.edits = []  # (start, end, text, origin)
 
+    soft = False   # while True, an edit that overlaps an earlier one is dropped (global rules yield to per-site ones)
+
     def add(self, start, end, text, origin):
         for (s, e, _, _) in self.edits:
             if not (end <= s or start >= e) and not (start == end == s == e):
                 if start == end and (start == s or start == e):
                     continue
+                if self.soft:
+                    return
                 raise UnitError(f'overlapping edits at {self.src.path}:{self.src.line_of(start)}')
         self.edits.append((start, end, text, origin))
 
@@ -456,6 +462,11 @@ def assemble(unit, canary=False):
                     old, new = o[4:].split('=>')
                     text = text.replace(old, new)
             out.add_text(f'// ---- type {name} extracted from {file}:{src.line_of(a)}', ('gen',))
+            for o in opts:
+                if o.startswith('derive:'):
+                    # the source's own #[derive(..)] list is dropped with the other attributes (R0); the unit file
+                    # re-states the traits executable code in this unit relies on (they are in the source's list)
+                    out.add_text(f'#[derive({o[7:].replace(",", ", ")})]', ('gen',))
             base = src.line_of(a)
             for n, ln in enumerate(('pub ' + text).split('\n')):
                 out.lines.append(ln)
@@ -478,6 +489,25 @@ def assemble(unit, canary=False):
                         f'    open spec fn from_spec(v: {v}) -> {name} {{ {name}::{v}(v) }}',
                         '}']
             out.add_text('\n'.join(gen), ('rw', 'R4'))
+        elif item[0] == 'fromimpl':
+            # a `impl From<A> for B { fn from(x: A) -> Self { EXPR } }` of the crate: emitted verbatim, plus the
+            # vstd FromSpecImpl whose from_spec body is the same expression (so `.into()` / `B::from` are transparent)
+            _, file, target = item
+            src = get_src(file)
+            ihs, ibo, ibc = src.find_impl(target)
+            hs, fn_kw, bo, bc = src.find_fn('from', ibo + 1, ibc)
+            sig = src.text[fn_kw:bo].strip()
+            body = src.text[bo + 1:bc].strip()
+            m = re.match(r'From<(.+)> for (\w+)$', target)
+            if not m or ';' in body:
+                raise Lost(f'{file}: impl {target}: not a single-expression From impl')
+            a_ty, b_ty = m.group(1), m.group(2)
+            pm = re.search(r'\(\s*(\w+)\s*:', sig)
+            out.add_text(f'// ---- impl {target} extracted from {file}:{src.line_of(ihs)} (body verbatim; from_spec = same expression)', ('gen',))
+            out.add_text(f'impl From<{a_ty}> for {b_ty} {{ {sig} {{ {body} }} }}', ('src', file, src.line_of(fn_kw)))
+            out.add_text(f'impl vstd::std_specs::convert::FromSpecImpl<{a_ty}> for {b_ty} {{\n'
+                         f'    open spec fn obeys_from_spec() -> bool {{ true }}\n'
+                         f'    open spec fn from_spec({pm.group(1)}: {a_ty}) -> {b_ty} {{ {body} }}\n}}', ('rw', 'R4'))
         elif item[0] == 'const':
             _, file, name = item
             src = get_src(file)
@@ -534,7 +564,6 @@ def emit_fn(asm, unit, fs, src, canary):
     if fs.impl != '-':
         for m in src.find_code(r'\btype\s+Item\s*=\s*([^;]+);', ibo, ibc):
             item_ty = m.group(1).strip()
-    global_rewrites(src, ed, fn_kw, bc + 1, log, item_ty)
     if fs.rename:
         m = re.compile(r'fn\s+(\w+)').match(src.text, fn_kw)
         ed.add(m.start(1), m.end(1), fs.rename, ('rw', 'R0-name'))
@@ -576,6 +605,9 @@ def emit_fn(asm, unit, fs, src, canary):
             if not covered(mm.start()):
                 ed.add(mm.start(), mm.end(), ty, ('rw', 'R12'))
         log.append('R12')
+    ed.soft = True
+    global_rewrites(src, ed, fn_kw, bc + 1, log, item_ty)
+    ed.soft = False
     # contract clauses at the signature
     sig = []
     groups = [('requires', 'requires'), ('ensures', 'ensures'), ('decreases', 'decreases')]
